@@ -470,6 +470,29 @@ def World.held (w : World) (k : Kind) : Nat :=
   (match w.h with | some h => h.liveOf k | none => 0) +
   (match k with | .heap => w.a.leakedHeap | .fd => w.a.leakedFd | .disk => w.a.leakedDisk)
 
+/-! ### several handles: each call names the handle it is made on; the handles share nothing but the account -/
+
+structure Worlds where
+  hs : List (Nat × Handle) := []      -- the open handles, by the caller's name for them
+  a : Acct := {}
+
+def Worlds.get (w : Worlds) (i : Nat) : Option Handle := (w.hs.find? (fun p => p.1 == i)).map (·.2)
+
+def Worlds.set (w : Worlds) (i : Nat) (h : Option Handle) (a : Acct) : Worlds :=
+  let rest := w.hs.filter (fun p => p.1 != i)
+  { hs := match h with | some h => (i, h) :: rest | none => rest, a := a }
+
+/-- a call on handle i is `step` on the world made of that handle and the shared account -/
+def stepAt (w : Worlds) (i : Nat) (op : Op) : Worlds × Int :=
+  let r := step { h := w.get i, a := w.a } op
+  (w.set i r.1.h r.1.a, r.2)
+
+def runAt (w : Worlds) (ops : List (Nat × Op)) : Worlds := ops.foldl (fun w p => (stepAt w p.1 p.2).1) w
+
+def Worlds.held (w : Worlds) (k : Kind) : Nat :=
+  (w.hs.map (fun p => p.2.liveOf k)).sum +
+  (match k with | .heap => w.a.leakedHeap | .fd => w.a.leakedFd | .disk => w.a.leakedDisk)
+
 /-! ### what the harness prints (`ledger peek`) -/
 
 def Handle.mask (h : Handle) : Nat :=
